@@ -154,7 +154,7 @@ Lemma rewalk_deps fuel wd l f rd chg seen :
           mem (d_source d) l = true /\ d_source d <> f /\ r_failed (ldm (d_source d)) = None /\
           exists c, r_changed (ldm (d_source d)) = Some c /\ (c <= sub_max rd chg)%Z)) ->
     Forall (fun d => (1 <= d_source d)%nat) ds ->
-    walk_deps (fun w c s rs => is_dirty fuel runid w c s rs (sub_max rd chg) (f :: seen)) runid f rd
+    walk_deps (fun w c s rs => is_dirty fuel runid nil w c s rs (sub_max rd chg) (f :: seen)) runid f rd
               (map (fun x => (x, load runid (dbs wd) (d_source x))) ds) wd ChkDb [] evs = Ret (v, w', c', e') ->
     v = VClean /\ w' = set_db wd (put_row (dbs wd) f (set_checked runid rd)) /\ c' = ChkDb.
 Proof.
@@ -238,7 +238,7 @@ Proof.
 Qed.
 
 Lemma is_dirty_need_nonempty : forall fuel w c f r mx seen l w' c' e,
-  is_dirty fuel runid w c f r mx seen = Ret (VNeed l, w', c', e) -> l <> [].
+  is_dirty fuel runid nil w c f r mx seen = Ret (VNeed l, w', c', e) -> l <> [].
 Proof.
   induction fuel as [|fuel IH]; intros w c f r mx seen l w' c' e H; [discriminate|].
   cbn [is_dirty] in H.
@@ -268,7 +268,7 @@ Proof.
 Qed.
 
 Lemma is_dirty_db_chk : forall fuel w f r mx seen v w' c' e,
-  is_dirty fuel runid w ChkDb f r mx seen = Ret (v, w', c', e) -> c' = ChkDb.
+  is_dirty fuel runid nil w ChkDb f r mx seen = Ret (v, w', c', e) -> c' = ChkDb.
 Proof.
   induction fuel as [|fuel IH]; intros w f r mx seen v w' c' e H; [discriminate|].
   cbn [is_dirty] in H.
@@ -288,8 +288,8 @@ Theorem sim : forall fuel wd l f rd mx seen vd wd' cd ed vm wm' cm em,
   (r_checked rd = r_checked (ldm f) \/ (is_checked runid rd = true /\ mem f l = true)) ->
   ((mx < runid)%Z \/ is_changed runid (ldm f) = false) ->
   (forall a, mem a seen = true -> mem a l = false) ->
-  is_dirty fuel runid wd ChkDb f rd mx seen = Ret (vd, wd', cd, ed) ->
-  is_dirty fuel runid wm (ChkMem l) f (ldm f) mx seen = Ret (vm, wm', cm, em) ->
+  is_dirty fuel runid nil wd ChkDb f rd mx seen = Ret (vd, wd', cd, ed) ->
+  is_dirty fuel runid nil wm (ChkMem l) f (ldm f) mx seen = Ret (vm, wm', cm, em) ->
   CONC l seen f mx vd wd' vm wm' cm.
 Proof.
   induction fuel as [|fuel IH]; intros wd l f rd mx seen vd wd' cd ed vm wm' cm em Hf HR HI Hreq Vd Hcopy Hmx Hseen Hd Hm;
@@ -372,9 +372,9 @@ Proof.
               (must = [] -> deps_of (dbs wm) rm f = dn ++ ds /\ forall d, In d dn -> depfact lk f sm d) ->
               REL lk wdk -> INV lk -> incl_l l lk ->
               (forall a, mem a (f :: seen) = true -> mem a lk = false) ->
-              walk_deps (fun w c s rs => is_dirty fuel runid w c s rs sm (f :: seen)) runid f rd
+              walk_deps (fun w c s rs => is_dirty fuel runid nil w c s rs sm (f :: seen)) runid f rd
                         (map (fun x => (x, load runid (dbs wd) (d_source x))) ds) wdk ChkDb must evd = Ret (vd, wd', cd, ed) ->
-              walk_deps (fun w c s rs => is_dirty fuel runid w c s rs sm (f :: seen)) runid f rm
+              walk_deps (fun w c s rs => is_dirty fuel runid nil w c s rs sm (f :: seen)) runid f rm
                         (map (fun x => (x, load runid (dbs wm) (d_source x))) ds) wm (ChkMem lk) must evm = Ret (vm, wm', cm, em) ->
               CONC l seen f mx vd wd' vm wm' cm).
     { induction ds as [|d ds IHds]; intros dn wdk lk must evd evm vd0 wd0' cd0 ed0 vm0 wm0' cm0 em0 Hpos Hfacts HRk HIk Hinc Hsk Hwd Hwm;
@@ -429,10 +429,10 @@ Proof.
             split; [intros _; exact Eex|intro X; congruence].
         + (* redo-ifchange edge: both sub-checks *)
           fold (ldm (d_source d)) in Hwm.
-          destruct (is_dirty fuel runid wdk ChkDb (d_source d) (load runid (dbs wd) (d_source d)) sm (f :: seen))
+          destruct (is_dirty fuel runid nil wdk ChkDb (d_source d) (load runid (dbs wd) (d_source d)) sm (f :: seen))
             as [[[[v1d wd1] c1d] e1d]|] eqn:Ed1; [|discriminate].
           pose proof (is_dirty_db_chk _ _ _ _ _ _ _ _ _ _ Ed1) as Hc1d. subst c1d.
-          destruct (is_dirty fuel runid wm (ChkMem lk) (d_source d) (ldm (d_source d)) sm (f :: seen))
+          destruct (is_dirty fuel runid nil wm (ChkMem lk) (d_source d) (ldm (d_source d)) sm (f :: seen))
             as [[[[v1m wm1] c1m] e1m]|] eqn:Em1; [|discriminate].
           assert (Hcopy1 : r_checked (load runid (dbs wd) (d_source d)) = r_checked (ldm (d_source d))
                            \/ (is_checked runid (load runid (dbs wd) (d_source d)) = true /\ mem (d_source d) lk = true)).
@@ -471,7 +471,7 @@ Fixpoint check_db (fuel : nat) (fs : list fid) (wd : world) : option (list verdi
   match fs with
   | [] => Some []
   | f :: fs' =>
-      match is_dirty fuel runid wd ChkDb f (load runid (dbs wd) f) runid [] with
+      match is_dirty fuel runid nil wd ChkDb f (load runid (dbs wd) f) runid [] with
       | Ret (v, wd', _, _) => option_map (cons v) (check_db fuel fs' wd')
       | EFuel => None
       end
@@ -480,7 +480,7 @@ Fixpoint check_mem (fuel : nat) (fs : list fid) (c : chk) : option (list verdict
   match fs with
   | [] => Some []
   | f :: fs' =>
-      match is_dirty fuel runid wm c f (ldm f) runid [] with
+      match is_dirty fuel runid nil wm c f (ldm f) runid [] with
       | Ret (v, _, c', _) => option_map (cons v) (check_mem fuel fs' c')
       | EFuel => None
       end
@@ -494,8 +494,8 @@ Proof.
   induction fs as [|f fs IHfs]; intros wd l vds vms Hall HR HI Hd Hm; cbn [check_db check_mem] in Hd, Hm.
   - congruence.
   - inversion Hall as [|x y [Hf Hnc] Hall']; subst.
-    destruct (is_dirty fuel runid wd ChkDb f (load runid (dbs wd) f) runid []) as [[[[vd wd'] cd] ed]|] eqn:Ed; [|discriminate].
-    destruct (is_dirty fuel runid wm (ChkMem l) f (ldm f) runid []) as [[[[vm wm'] cm] em]|] eqn:Em; [|discriminate].
+    destruct (is_dirty fuel runid nil wd ChkDb f (load runid (dbs wd) f) runid []) as [[[[vd wd'] cd] ed]|] eqn:Ed; [|discriminate].
+    destruct (is_dirty fuel runid nil wm (ChkMem l) f (ldm f) runid []) as [[[[vm wm'] cm] em]|] eqn:Em; [|discriminate].
     pose proof HR as (_ & _ & _ & Hrows). destruct (Hrows f Hf) as [Rq Rc].
     assert (Hcopy : r_checked (load runid (dbs wd) f) = r_checked (ldm f)
                     \/ (is_checked runid (load runid (dbs wd) f) = true /\ mem f l = true)).
